@@ -4,8 +4,9 @@ From Coq Require Import ZArith List Bool String.
 From V.C17 Require Import Model Spec Proofs.
 Open Scope Z_scope.
 
-(* a converted argument always has the parameter's kind (what reflect.Call requires); before the
-   fix this failed for every int64 parameter *)
+(* a converted argument always has the parameter's TYPE — a predeclared kind or a defined type
+   (`type Name string`, KNamed) — which is what reflect.Call requires; before the fixes this failed
+   for every int64 parameter and for every defined string/bool/float64 type *)
 Theorem to_go_typed : forall lib k v g, to_go lib k v = Ok g -> dyn_kind g = k.
 Proof. exact to_go_typed_l. Qed.
 Print Assumptions to_go_typed.
@@ -21,6 +22,22 @@ Theorem to_go_matching : forall lib k v, wf v = true -> matching v k = true ->
 Proof. exact to_go_matching_l. Qed.
 Print Assumptions to_go_matching.
 
+(* "when the value is representable ... exactly the value": what arrives IS the script value
+   (`inject`) whenever it is representable in the kind; at a float32 parameter a representable
+   float64 arrives as its own float32 image, which is the same float.  (A float64 that is not
+   representable but in range arrives ROUNDED to the nearest float32: a declared decision of this
+   spec — `to_go_matching` with `unconvertible = false` — not a consequence of the property text.) *)
+Theorem representable_exact : forall lib k v, matching v k = true -> representable lib v k = true ->
+  match v, base_kind k with
+  | SFloat f, KFloat32 => arrive lib k v = GFlt k (f32 lib f) /\ same_float (f32 lib f) f = true
+  | _, _ => arrive lib k v = inject k v
+  end.
+Proof. exact representable_exact_l. Qed.
+Theorem representable_int_convertible : forall lib k z, representable lib (SInt z) k = true ->
+  unconvertible lib (SInt z) k = false.
+Proof. exact representable_int_convertible_l. Qed.
+Print Assumptions representable_exact.
+
 (* "the script receives exactly the value Go returned": every returnable Go result (any string,
    bool, float32/float64, any integer kind up to 2^63-1) comes back as that value *)
 Theorem from_go_exact : forall g, returnable g = true -> from_go g = Ok (project g).
@@ -28,7 +45,7 @@ Proof. exact from_go_returnable_l. Qed.
 (* there and back: a value passed to Go and returned unchanged is the value passed *)
 Theorem roundtrip : forall lib k v, wf v = true -> matching v k = true -> unconvertible lib v k = false ->
   from_go (arrive lib k v) =
-  Ok (match v, k with SFloat f, KFloat32 => SFloat (f32 lib f) | _, _ => v end).
+  Ok (match v, base_kind k with SFloat f, KFloat32 => SFloat (f32 lib f) | _, _ => v end).
 Proof. exact roundtrip_l. Qed.
 Print Assumptions from_go_exact.
 Print Assumptions roundtrip.
@@ -60,7 +77,7 @@ Print Assumptions call_unconvertible.
    library wrappers": utils.ConvertFromIndex[T] on scalars *)
 Theorem generic_typed : forall lib k v g, generic lib k v = Ok g -> dyn_kind g = k.
 Proof. exact generic_typed_l. Qed.
-Theorem generic_matching : forall lib k v, matching v k = true ->
+Theorem generic_matching : forall lib k v, predeclared k = true -> matching v k = true ->
   generic lib k v = if unconvertible lib v k then Throw else Ok (arrive lib k v).
 Proof. exact generic_matching_l. Qed.
 Print Assumptions generic_typed.
